@@ -411,7 +411,14 @@ def stream_refine(run, n):
         res = build_result(key, raw, T, rng_seed=k)
         got = [float(res.T_min), float(res.T_max), float(res.T_min_seg), float(res.T_max_seg)]
         if got != tc:
-            raise RuntimeError("get_T_bnds %r differs from the constructed statistics %r" % (got, tc))
+            # the array was built to have exactly these order statistics (C12_recorded_limits_*): the implementation disagrees
+            run.violation({"stream": "refine", "clause": "recorded temperature limits are order statistics of the fitted days",
+                           "class": "admissibility"},
+                          "C12 synthetic %s: OptimizedResult records limits %r for a component whose fitted temperatures have the "
+                          "order statistics %r (segment_minimum_count %d)" % (key, got, tc, n_seg),
+                          case={"T": [float(t) for t in T], "n_seg": n_seg}, observation={"recorded": got, "expected": tc},
+                          generator="c12.refine")
+            tc = got
         obs, _ = process_component(run, acc, key, raw, T, info, res, "refine", "synthetic %s" % key, q=info["q"])
         run.count(vlib.sha([key, raw, tc]), key != "tidd")
         run.sample({"key": key, "raw": raw, "tc": tc, "coef_id_key": obs[0], "x": obs[1], "named": obs[2]})
@@ -844,7 +851,7 @@ def stream_fits(run, n, n_reused=0, n_split=0, n_weighted=0, n_knee=0):
                                   case={"dataset": ds, "component": comp}, observation={"named": obs[2], "days": want, "usage_q": q},
                                   generator="c12.fits")
             limits_of[comp] = (want, q)
-            if len(TBNDS_FROM_FITS) < 40:
+            if len(TBNDS_FROM_FITS) < 12:
                 TBNDS_FROM_FITS.append(([float(t) for t in np.asarray(res.T, float)], int(res.settings.segment_minimum_count), tc))
             if where == "model" and comp in model.params.submodels:
                 # the public prediction path on the component's baseline temperatures reproduces its fitted values
@@ -981,7 +988,7 @@ def main():
         "the fit functions call them; fix_identical_bnds row by row (0, powers of ten, negatives). params_order: model.model set by hand "
         "from synthetic components in sorted / reversed / shuffled insertion order, _create_params_from_fit_model + to_dict(). "
         "tbnds: get_T_bnds on synthetic temperature arrays (ties, 1-90 values, segment count 0..len+1) and on the temperatures "
-        "of up to 40 fitted components vs the model's order statistics")
+        "of up to 12 fitted components vs the model's order statistics")
     run.assumptions += [
         "PARTIAL: the optimiser is an oracle with the contract 'returns a point of the box it was given' (Section hypothesis of "
         "the theorems); the contract is checked on every sampled fit only",
@@ -1022,7 +1029,7 @@ def main():
     if os.environ.get("C12_NOFITS") != "1":
         stream_fits(run, run.n(10, 200), n_reused=run.n(3, 30), n_split=run.n(1, 12), n_weighted=run.n(2, 20), n_knee=run.n(2, 20))
     if os.environ.get("C12_ONLYFITS") != "1" or TBNDS_FROM_FITS:
-        stream_tbnds(run, run.n(300, 20000))
+        stream_tbnds(run, run.n(200, 20000))
     run.finish()
 
 
